@@ -12,17 +12,88 @@ VERIF = os.path.dirname(os.path.dirname(os.path.abspath(__file__)))
 
 ALL = [f'C{i:02d}' for i in range(1, 21)]
 
+TRUST = 'Trusted: Lean kernel + propext/Classical.choice/Quot.sound (+ bv_decide native axioms of the bit lemmas where listed in the evidence); extractor, shim, scheduler, harness; hand-written model control flow (validated by step-level correspondence, not verified). '
+
+WL = ('Lean 4 theorems over the parametric word-lock small-step model (all action lists = all programs/interleavings), '
+      'instantiated at parameters regenerated from the source (tie G: constants, per-site memory orders; bit-field Specs by bv_decide); '
+      'tie C: step-level replay of every harness schedule of the real code on the same model; Lean monitors on implementation events find the failing input')
+TH = ('Lean 4 theorems over the IDManager / epoch models; tie G (constants, destructor shape, orders regenerated); '
+      'tie C: thread-level interpreter replayed quantum by quantum against the shim-instrumented real code; Lean monitors on implementation events')
+ZP = ('Lean 4 theorems over the Zipf model (search over any strict total order; tables over any ordered field); tie G (constants, class facts regenerated); '
+      'tie C: bit comparison of the Float instance of the same model with the real classes on generated cases incl. breakpoint-exact variates')
+
 TEXT = {
-    'C01': dict(
-        technique='Lean 4 inductive invariant (word = exact count of live grants) over a parametric small-step model; '
-                  'tie G (constants, orders regenerated; bit-field Specs by bv_decide) + tie C (step-level correspondence with the real code)',
-        text='Theorems c01_pess / c01_opt: in every reachable state of the word-lock model at the regenerated parameters '
-             '(any number of requests, any client behaviour, any interleaving, arbitrary pre-load values, spurious CAS failures) '
-             'no two live grants conflict under the documented matrix. The model is tied to the source by regenerated constants/orders '
-             'and by replaying, on the model, every schedule the harness executes on the real guard classes; the exclusion and torn-read '
-             'monitors run on the implementation events.',
-        note='Trusted: Lean kernel + propext/Classical.choice/Quot.sound + bv_decide native axioms of the bit lemmas; extractor, shim, scheduler; '
-             'hand-written model control flow (validated by correspondence, not verified). MCSLock: covered by correspondence + monitors, theorem staged (DESIGN 5.3).'),
+    'C01': dict(technique=WL,
+        text='c01_pess / c01_opt: in every reachable state (any number of requests, any interleaving, arbitrary pre-load values, spurious CAS failures) '
+             'no two live grants conflict; c01_word_counts_*: the word is the exact count of live grants. MCSLock: bit-level lemmas + step-exact model + exclusion/torn-read monitors only.',
+        note=TRUST + 'MCS queue invariant not mechanised (DESIGN 5.3, 10).'),
+    'C02': dict(technique=WL,
+        text='c02_blocked_*: an agent whose acquisition/upgrade step cannot succeed coexists with a live conflicting holder; c02_solo_acquire; c02_quiescent_free_*: no holder => word free. '
+             'Fair termination wrapper on paper; dynamic: stuck detection under fair policies + final LockX probe on every lock (found F1, F3).',
+        note=TRUST + 'Liveness under fairness is not a Lean theorem; MCS by correspondence + stuck monitor.'),
+    'C03': dict(technique=WL,
+        text='c03_window: if validation succeeds then no X holder existed and no X-end occurred at any moment of the window (NoRepublish hypothesis shown necessary by example); '
+             'c03_check_iff, c03_decisive_read, c03_trylock_sound. OptMon monitor checks guard-level bookkeeping on implementation traces.',
+        note=TRUST + 'Guard-object bookkeeping (client layer) by correspondence + monitor.'),
+    'C04': dict(technique=TH,
+        text='c04_collected_is_published (collected pins are in the published list, min <= every pin) + heartbeat theorems of C15 (a live slot is never skipped); '
+             'the interleaving argument "a complete guard is seen by the scan" rests on correspondence + pin monitor. PARTIAL; known finding F10 (nested guards).',
+        note=TRUST + 'Partial: concurrent scan argument not mechanised.'),
+    'C05': dict(technique=TH,
+        text='c05_unique / c05_in_range / c05_stable over the IDManager model: any capacity, any number of threads, any probe start, every interleaving of load/exchange/exit steps.',
+        note=TRUST),
+    'C06': dict(technique=ZP,
+        text='c06_inverse_cdf (= search_spec): for any strict total order and any monotone table the search returns the least index whose entry is >= the variate; c06_in_range; c06_one_bin; c06_switch. '
+             'Monotonicity of the floating-point tables is compared/tested, not proved; known findings F7, F8.',
+        note=TRUST + 'Float arithmetic is compared bit for bit, never reasoned about.'),
+    'C07': dict(technique=WL,
+        text='Core: c07_release_enabled_iff, c07_release_finishes, c07_done_absorbing, c07_release_once (no double release, release only when held). '
+             'Ownership rules of the guard classes: executable client model compared with the classes + ownership ghost monitor (found F1).',
+        note=TRUST + 'Guard-class layer has no theorem.'),
+    'C08': dict(technique=WL + '; vector-clock happens-before invariant',
+        text='c08_pess / c08_opt: with the regenerated order table (Adequate closed by rfl: c08_*_orders) every granted section is above every ended conflicting section in the vector-clock semantics; '
+             'c08_mcs_orders + hb monitor on all traces for MCS (found F5).',
+        note=TRUST + 'Executions whose reads return the newest value; synchronises-with from declared orders.'),
+    'C09': dict(technique=WL,
+        text='c09_version_discipline (version changes only at X end and becomes the announced value), c09_xguard_version, c09_release_word, c09_downgrade_word (all 2^32 versions, bv_decide). '
+             'XGuard new_ver bookkeeping by correspondence + XB/XE monitor.',
+        note=TRUST),
+    'C10': dict(technique=WL,
+        text='c10_no_other_sixx_*: during a SIX/X tenure no other SIX/X grant; c10_no_gap: conversions keep the grant; c10_upgrade_alone_*: upgrade granted only without S holders. MCS by correspondence + monitors.',
+        note=TRUST),
+    'C11': dict(technique='Lean 4 bit-level lemmas at regenerated MCS constants (bv_decide) + step-faithful executable MCS model tied by correspondence; FIFO monitor on every implementation trace',
+        text='c11_tail_word, c11_join_keeps_tail + MCS bit lemmas; arrival order itself is decided by the Lean fifo monitor over implementation events and the step-exact model. PARTIAL: no protocol theorem.',
+        note=TRUST + 'MCS protocol invariant not mechanised.'),
+    'C12': dict(technique='Lean 4 bit-level lemmas at regenerated MCS constants (bv_decide) + step-faithful executable MCS model with node accounting tied by correspondence; node monitor',
+        text='c12_unlockS_recycle_test (repaired test = exactly one shared holder and no SIX/X; original test never true), c12_unlockX_recycle_test, …; node alloc/free accounting by monitor (found F2). PARTIAL.',
+        note=TRUST + 'MCS protocol invariant not mechanised.'),
+    'C13': dict(technique=WL,
+        text='c13_version_result (non-owning result read from a word without X), c13_shared_fallback / c13_cas_from_noX (owning result by CAS from a word with no X). Prepare monitor on traces.',
+        note=TRUST),
+    'C14': dict(technique=TH,
+        text='c14_all_exited_all_free, c14_flag_has_holder, c14_release_clears, c14_solo_claim_succeeds (a lone claimer succeeds within n+1 probes when a slot is free). '
+             'Progress among several claimers: probing-progress monitor (4N+4 bound) on oversubscribed scenarios.',
+        note=TRUST),
+    'C15': dict(technique=TH,
+        text='c15_lifetime (token alive iff between claim and expiry), c15_free_slot_all_expired, c15_unexpired_unique, c15_exit_order (regenerated destructor shape), '
+             'c15_counterexample_original_order (the pre-fix order violates it; F4 fixed).',
+        note=TRUST),
+    'C16': dict(technique=TH,
+        text='c16_initial, c16_min_le_cur, c16_contains_cur_next, c16_quiescent (no pins => list = [cur+1, cur]), c16_head_is_new; "+1 per forward" by correspondence.',
+        note=TRUST),
+    'C17': dict(technique=TH,
+        text='c17_list_shape (strictly descending, head = epoch, contains epoch-1), c17_read_back; stability/liveness of the node while the guard lives by correspondence + list monitors. PARTIAL; known finding F6.',
+        note=TRUST + 'Partial: concurrent lifetime argument not mechanised.'),
+    'C18': dict(technique=ZP,
+        text='c18_exact_entries / c18_exact_monotone / c18_one_bin / c18_approx_equals_exact / c18_approx_last_is_one over any ordered field. "Up to rounding" and "within 0.01" are TESTS '
+             '(bit comparison, long double reference); known finding F9, F11 fixed.',
+        note=TRUST + 'Uses single Mathlib modules in Proofs/ZipfTable.lean.'),
+    'C19': dict(technique=ZP,
+        text='c19_class_facts (regenerated: operator() const, no mutable/static state but the distribution, both ctors throw), c19_function_of_table_and_variate, c19_table_function_of_params; purity runs (copies, moves, threads).',
+        note=TRUST),
+    'C20': dict(technique=TH,
+        text='c20_published_exact (published list = distinct {new, prev, pins} descending), c20_published_unique, c20_min_is_smallest; node-count bound and destructor by monitors on allocation events (staircase/deep histories).',
+        note=TRUST + 'prune theorems not yet mechanised.'),
 }
 
 
@@ -49,7 +120,7 @@ def main():
                 'technique': t.get('technique', 'Lean 4 proof + correspondence check'),
             })
         else:
-            na.append({'property_id': pid, 'reason': 'check not built yet in this session (planned: see DESIGN.md section 6); not claimed'})
+            na.append({'property_id': pid, 'reason': 'no check registered (see DESIGN.md)'})
     served = [c['property_id'] for c in checks]
     m = {
         'version': 1,
